@@ -466,14 +466,14 @@ def _parseNormalTextgrid(data: str) -> Dict:
         ).groups()[0]
         tierName = re.sub(r'""', '"', tierName)
 
-        # "-0" has been reported as a potential start time
+        # Times may be negative; "-0" has been reported as a potential start time
         tierStartTimeStr = reSearch(
-            r"xmin ?= ?-?([\d.]+(?:[eE][-+]?\d+)?)\s*$", header, flags=re.MULTILINE
+            r"xmin ?= ?(-?[\d.]+(?:[eE][-+]?\d+)?)\s*$", header, flags=re.MULTILINE
         ).groups()[0]
         tierStartTime = utils.strToIntOrFloat(tierStartTimeStr)
 
         tierEndTimeStr = reSearch(
-            r"xmax ?= ?([\d.]+(?:[eE][-+]?\d+)?)\s*$", header, flags=re.MULTILINE
+            r"xmax ?= ?(-?[\d.]+(?:[eE][-+]?\d+)?)\s*$", header, flags=re.MULTILINE
         ).groups()[0]
         tierEndTime = utils.strToIntOrFloat(tierEndTimeStr)
 
@@ -482,10 +482,10 @@ def _parseNormalTextgrid(data: str) -> Dict:
         if tierType == INTERVAL_TIER:
             for element in tierData:
                 timeStart = reSearch(
-                    r"xmin ?= ?-?([\d.]+(?:[eE][-+]?\d+)?)\s*$", element, flags=re.MULTILINE
+                    r"xmin ?= ?(-?[\d.]+(?:[eE][-+]?\d+)?)\s*$", element, flags=re.MULTILINE
                 ).groups()[0]
                 timeEnd = reSearch(
-                    r"xmax ?= ?([\d.]+(?:[eE][-+]?\d+)?)\s*$", element, flags=re.MULTILINE
+                    r"xmax ?= ?(-?[\d.]+(?:[eE][-+]?\d+)?)\s*$", element, flags=re.MULTILINE
                 ).groups()[0]
                 label = reSearch(
                     r"text ?= ?\"(.*)\"\s*$",
@@ -499,7 +499,7 @@ def _parseNormalTextgrid(data: str) -> Dict:
         else:
             for element in tierData:
                 time = reSearch(
-                    r"number ?= ?-?([\d.]+(?:[eE][-+]?\d+)?)\s*$", element, flags=re.MULTILINE
+                    r"number ?= ?(-?[\d.]+(?:[eE][-+]?\d+)?)\s*$", element, flags=re.MULTILINE
                 ).groups()[0]
                 label = reSearch(
                     r"mark ?= ?\"(.*)\"\s*$",
